@@ -413,6 +413,89 @@ func decFilter(f *pb.Filter) string {
 		if proto.Unmarshal(s, m) == nil {
 			return "FirstKeyOnly()"
 		}
+	case "MultiRowRangeFilter":
+		m := &pb.MultiRowRangeFilter{}
+		if proto.Unmarshal(s, m) == nil {
+			parts := []string{}
+			for _, r := range m.GetRowRangeList() {
+				parts = append(parts, c05b01(r.GetStartRowInclusive())+hx(r.GetStartRow())+":"+hx(r.GetStopRow())+c05b01(r.GetStopRowInclusive()))
+			}
+			return "MultiRowRange(" + strings.Join(parts, ",") + ")"
+		}
+	case "ColumnRangeFilter":
+		m := &pb.ColumnRangeFilter{}
+		if proto.Unmarshal(s, m) == nil {
+			return "ColumnRange(" + c05b01(m.GetMinColumnInclusive()) + hx(m.GetMinColumn()) + ":" + hx(m.GetMaxColumn()) + c05b01(m.GetMaxColumnInclusive()) + ")"
+		}
+	case "TimestampsFilter":
+		m := &pb.TimestampsFilter{}
+		if proto.Unmarshal(s, m) == nil {
+			parts := []string{}
+			for _, t := range m.GetTimestamps() {
+				parts = append(parts, strconv.FormatInt(t, 10))
+			}
+			return "Timestamps(" + strings.Join(parts, ",") + ")"
+		}
+	case "InclusiveStopFilter":
+		m := &pb.InclusiveStopFilter{}
+		if proto.Unmarshal(s, m) == nil {
+			return "InclusiveStop(" + hx(m.GetStopRowKey()) + ")"
+		}
+	case "ColumnCountGetFilter":
+		m := &pb.ColumnCountGetFilter{}
+		if proto.Unmarshal(s, m) == nil {
+			return "ColumnCountGet(" + strconv.Itoa(int(m.GetLimit())) + ")"
+		}
+	case "ColumnPaginationFilter":
+		m := &pb.ColumnPaginationFilter{}
+		if proto.Unmarshal(s, m) == nil {
+			return "ColumnPagination(" + strconv.Itoa(int(m.GetLimit())) + "," + strconv.Itoa(int(m.GetOffset())) + "," + hx(m.GetColumnOffset()) + ")"
+		}
+	case "MultipleColumnPrefixFilter":
+		m := &pb.MultipleColumnPrefixFilter{}
+		if proto.Unmarshal(s, m) == nil {
+			parts := []string{}
+			for _, x := range m.GetSortedPrefixes() {
+				parts = append(parts, hx(x))
+			}
+			return "MultipleColumnPrefix(" + strings.Join(parts, ",") + ")"
+		}
+	case "SkipFilter":
+		m := &pb.SkipFilter{}
+		if proto.Unmarshal(s, m) == nil {
+			return "Skip(" + decFilter(m.GetFilter()) + ")"
+		}
+	case "WhileMatchFilter":
+		m := &pb.WhileMatchFilter{}
+		if proto.Unmarshal(s, m) == nil {
+			return "WhileMatch(" + decFilter(m.GetFilter()) + ")"
+		}
+	case "SingleColumnValueFilter":
+		m := &pb.SingleColumnValueFilter{}
+		if proto.Unmarshal(s, m) == nil {
+			return "SingleColumnValue(" + hx(m.GetColumnFamily()) + "," + hx(m.GetColumnQualifier()) + "," + strconv.Itoa(int(m.GetCompareOp())) + "," +
+				decComparator(m.GetComparator()) + "," + c05b01(m.GetFilterIfMissing()) + c05b01(m.GetLatestVersionOnly()) + ")"
+		}
+	case "RowFilter":
+		m := &pb.RowFilter{}
+		if proto.Unmarshal(s, m) == nil {
+			return "Row(" + decCompare(m.GetCompareFilter()) + ")"
+		}
+	case "ValueFilter":
+		m := &pb.ValueFilter{}
+		if proto.Unmarshal(s, m) == nil {
+			return "Value(" + decCompare(m.GetCompareFilter()) + ")"
+		}
+	case "QualifierFilter":
+		m := &pb.QualifierFilter{}
+		if proto.Unmarshal(s, m) == nil {
+			return "Qualifier(" + decCompare(m.GetCompareFilter()) + ")"
+		}
+	case "FamilyFilter":
+		m := &pb.FamilyFilter{}
+		if proto.Unmarshal(s, m) == nil {
+			return "Family(" + decCompare(m.GetCompareFilter()) + ")"
+		}
 	case "FilterList":
 		m := &pb.FilterList{}
 		if proto.Unmarshal(s, m) == nil {
@@ -424,6 +507,28 @@ func decFilter(f *pb.Filter) string {
 		}
 	}
 	return "unknown/" + hx([]byte(f.GetName())) + "/" + hx(s)
+}
+
+func decCompare(c *pb.CompareFilter) string {
+	return strconv.Itoa(int(c.GetCompareOp())) + "," + decComparator(c.GetComparator())
+}
+
+// decComparator: the two byte-array comparators the generator uses, by class name and value
+func decComparator(c *pb.Comparator) string {
+	name := strings.TrimPrefix(c.GetName(), "org.apache.hadoop.hbase.filter.")
+	switch name {
+	case "BinaryComparator":
+		m := &pb.BinaryComparator{}
+		if proto.Unmarshal(c.GetSerializedComparator(), m) == nil {
+			return "Binary:" + hx(m.GetComparable().GetValue())
+		}
+	case "BinaryPrefixComparator":
+		m := &pb.BinaryPrefixComparator{}
+		if proto.Unmarshal(c.GetSerializedComparator(), m) == nil {
+			return "BinaryPrefix:" + hx(m.GetComparable().GetValue())
+		}
+	}
+	return "unknown/" + hx([]byte(c.GetName())) + "/" + hx(c.GetSerializedComparator())
 }
 
 func decColumns(cs []*pb.Column) []famQ {
@@ -736,13 +841,43 @@ func decHello(ch *pb.ConnectionHeader) string {
 
 // ---------------------------------------------------------------- operation specs (generator side)
 
+type fltRange struct {
+	start, stop   []byte
+	startI, stopI bool
+}
+
 type fltSpec struct {
-	kind int // 0 none, 1 prefix, 2 column prefix, 3 key only, 4 page, 5 first key only, 6 list of two
-	arg  []byte
-	b    bool
-	n    int64
-	op   int
-	sub  []fltSpec
+	// 0 none, 1 prefix, 2 column prefix, 3 key only, 4 page, 5 first key only, 6 list (1..3 members,
+	// nested up to two levels), 7 multi row range, 8 column range, 9 timestamps, 10 inclusive stop,
+	// 11 column count, 12 column pagination, 13 multiple column prefix, 14 skip, 15 while match,
+	// 16 single column value, 17 row, 18 value, 19 qualifier, 20 family
+	kind   int
+	arg    []byte
+	arg2   []byte
+	b      bool
+	b2     bool
+	n      int64
+	n2     int64
+	op     int
+	sub    []fltSpec
+	ranges []fltRange
+	list   [][]byte
+	ts     []int64
+	prefix bool // comparator: BinaryPrefixComparator rather than BinaryComparator
+}
+
+func (f fltSpec) comparator() filter.Comparator {
+	if f.prefix {
+		return filter.NewBinaryPrefixComparator(filter.NewByteArrayComparable(f.arg))
+	}
+	return filter.NewBinaryComparator(filter.NewByteArrayComparable(f.arg))
+}
+
+func (f fltSpec) renderComparator() string {
+	if f.prefix {
+		return "BinaryPrefix:" + hx(f.arg)
+	}
+	return "Binary:" + hx(f.arg)
 }
 
 func (f fltSpec) build() filter.Filter {
@@ -758,7 +893,50 @@ func (f fltSpec) build() filter.Filter {
 	case 5:
 		return filter.NewFirstKeyOnlyFilter()
 	case 6:
-		return filter.NewList(filter.ListOperator(f.op), f.sub[0].build(), f.sub[1].build())
+		var subs []filter.Filter
+		for _, x := range f.sub {
+			subs = append(subs, x.build())
+		}
+		if f.b { // members added one by one
+			l := filter.NewList(filter.ListOperator(f.op))
+			for _, x := range subs {
+				l.AddFilters(x)
+			}
+			return l
+		}
+		return filter.NewList(filter.ListOperator(f.op), subs...)
+	case 7:
+		var rs []*filter.RowRange
+		for _, r := range f.ranges {
+			rs = append(rs, filter.NewRowRange(r.start, r.stop, r.startI, r.stopI))
+		}
+		return filter.NewMultiRowRangeFilter(rs)
+	case 8:
+		return filter.NewColumnRangeFilter(f.arg, f.arg2, f.b, f.b2)
+	case 9:
+		return filter.NewTimestampsFilter(f.ts)
+	case 10:
+		return filter.NewInclusiveStopFilter(f.arg)
+	case 11:
+		return filter.NewColumnCountGetFilter(int32(f.n))
+	case 12:
+		return filter.NewColumnPaginationFilter(int32(f.n), int32(f.n2), f.arg)
+	case 13:
+		return filter.NewMultipleColumnPrefixFilter(f.list)
+	case 14:
+		return filter.NewSkipFilter(f.sub[0].build())
+	case 15:
+		return filter.NewWhileMatchFilter(f.sub[0].build())
+	case 16:
+		return filter.NewSingleColumnValueFilter(f.arg2, f.list[0], filter.CompareType(f.op), f.comparator(), f.b, f.b2)
+	case 17:
+		return filter.NewRowFilter(filter.NewCompareFilter(filter.CompareType(f.op), f.comparator()))
+	case 18:
+		return filter.NewValueFilter(filter.NewCompareFilter(filter.CompareType(f.op), f.comparator()))
+	case 19:
+		return filter.NewQualifierFilter(filter.NewCompareFilter(filter.CompareType(f.op), f.comparator()))
+	case 20:
+		return filter.NewFamilyFilter(filter.NewCompareFilter(filter.CompareType(f.op), f.comparator()))
 	}
 	return nil
 }
@@ -776,7 +954,51 @@ func (f fltSpec) render() string {
 	case 5:
 		return "FirstKeyOnly()"
 	case 6:
-		return "List" + strconv.Itoa(f.op) + "(" + f.sub[0].render() + "," + f.sub[1].render() + ")"
+		parts := []string{}
+		for _, x := range f.sub {
+			parts = append(parts, x.render())
+		}
+		return "List" + strconv.Itoa(f.op) + "(" + strings.Join(parts, ",") + ")"
+	case 7:
+		parts := []string{}
+		for _, r := range f.ranges {
+			parts = append(parts, c05b01(r.startI)+hx(r.start)+":"+hx(r.stop)+c05b01(r.stopI))
+		}
+		return "MultiRowRange(" + strings.Join(parts, ",") + ")"
+	case 8:
+		return "ColumnRange(" + c05b01(f.b) + hx(f.arg) + ":" + hx(f.arg2) + c05b01(f.b2) + ")"
+	case 9:
+		parts := []string{}
+		for _, t := range f.ts {
+			parts = append(parts, strconv.FormatInt(t, 10))
+		}
+		return "Timestamps(" + strings.Join(parts, ",") + ")"
+	case 10:
+		return "InclusiveStop(" + hx(f.arg) + ")"
+	case 11:
+		return "ColumnCountGet(" + strconv.FormatInt(f.n, 10) + ")"
+	case 12:
+		return "ColumnPagination(" + strconv.FormatInt(f.n, 10) + "," + strconv.FormatInt(f.n2, 10) + "," + hx(f.arg) + ")"
+	case 13:
+		parts := []string{}
+		for _, x := range f.list {
+			parts = append(parts, hx(x))
+		}
+		return "MultipleColumnPrefix(" + strings.Join(parts, ",") + ")"
+	case 14:
+		return "Skip(" + f.sub[0].render() + ")"
+	case 15:
+		return "WhileMatch(" + f.sub[0].render() + ")"
+	case 16:
+		return "SingleColumnValue(" + hx(f.arg2) + "," + hx(f.list[0]) + "," + strconv.Itoa(f.op) + "," + f.renderComparator() + "," + c05b01(f.b) + c05b01(f.b2) + ")"
+	case 17:
+		return "Row(" + strconv.Itoa(f.op) + "," + f.renderComparator() + ")"
+	case 18:
+		return "Value(" + strconv.Itoa(f.op) + "," + f.renderComparator() + ")"
+	case 19:
+		return "Qualifier(" + strconv.Itoa(f.op) + "," + f.renderComparator() + ")"
+	case 20:
+		return "Family(" + strconv.Itoa(f.op) + "," + f.renderComparator() + ")"
 	}
 	return "none"
 }
@@ -1063,7 +1285,7 @@ func (s *opSpec) builtCells() []canonCell {
 	var out []canonCell
 	for fam, inner := range values {
 		if s.kind == "del" {
-			if inner == nil {
+			if len(inner) == 0 { // a family named without qualifiers (nil or empty map): the whole family
 				t := 14
 				if s.delOne {
 					t = 10
@@ -1225,13 +1447,24 @@ func genValues(r *RNG, big int) map[string]map[string][]byte {
 	return m
 }
 
+func genFltSome(r *RNG, depth int) fltSpec {
+	for {
+		if f := genFlt(r, depth); f.kind != 0 {
+			return f
+		}
+	}
+}
+
 func genFlt(r *RNG, depth int) fltSpec {
-	k := r.Intn(7)
-	if depth > 0 && k == 6 {
+	k := r.Intn(12)
+	if k >= 7 { // the less common filters share the upper part of the range
+		k = 7 + r.Intn(14)
+	}
+	if depth >= 2 && (k == 6 || k == 14 || k == 15) {
 		k = 1
 	}
 	switch k {
-	case 1, 2:
+	case 1, 2, 10:
 		return fltSpec{kind: k, arg: r.Bytes(4, c05Alpha)}
 	case 3:
 		return fltSpec{kind: 3, b: r.Bool()}
@@ -1240,14 +1473,61 @@ func genFlt(r *RNG, depth int) fltSpec {
 	case 5:
 		return fltSpec{kind: 5}
 	case 6:
-		a, b := genFlt(r, 1), genFlt(r, 1)
-		for a.kind == 0 {
-			a = genFlt(r, 1)
+		f := fltSpec{kind: 6, op: 1 + r.Intn(2), b: r.Bool()}
+		for i, n := 0, 1+r.Intn(3); i < n; i++ {
+			sub := genFltSome(r, depth+1)
+			if depth == 0 && i == 0 && r.Intn(2) == 0 { // a list in a list, same or other operator
+				sub = fltSpec{kind: 6, op: 1 + r.Intn(2), sub: []fltSpec{genFltSome(r, 2), genFltSome(r, 2)}}
+			}
+			f.sub = append(f.sub, sub)
 		}
-		for b.kind == 0 {
-			b = genFlt(r, 1)
+		return f
+	case 7:
+		f := fltSpec{kind: 7}
+		for i, n := 0, 1+r.Intn(4); i < n; i++ {
+			rg := fltRange{start: r.Bytes(3, c05Alpha), stop: r.Bytes(3, c05Alpha), startI: r.Bool(), stopI: r.Bool()}
+			switch r.Intn(5) {
+			case 0: // one row
+				rg.stop, rg.startI, rg.stopI = append([]byte{}, rg.start...), true, true
+			case 1: // open ends
+				if r.Bool() {
+					rg.start = nil
+				} else {
+					rg.stop = nil
+				}
+			case 2: // ordered
+				if bytes.Compare(rg.start, rg.stop) > 0 {
+					rg.start, rg.stop = rg.stop, rg.start
+				}
+			}
+			f.ranges = append(f.ranges, rg)
 		}
-		return fltSpec{kind: 6, op: 1 + r.Intn(2), sub: []fltSpec{a, b}}
+		return f
+	case 8:
+		return fltSpec{kind: 8, arg: r.Bytes(3, c05Alpha), arg2: r.Bytes(3, c05Alpha), b: r.Bool(), b2: r.Bool()}
+	case 9:
+		f := fltSpec{kind: 9}
+		for i, n := 0, 1+r.Intn(4); i < n; i++ {
+			f.ts = append(f.ts, int64(r.Intn(1<<20)))
+		}
+		return f
+	case 11:
+		return fltSpec{kind: 11, n: int64(r.Intn(100))}
+	case 12:
+		return fltSpec{kind: 12, n: int64(1 + r.Intn(100)), n2: int64(r.Intn(50)), arg: r.Bytes(3, c05Alpha)}
+	case 13:
+		f := fltSpec{kind: 13}
+		for i, n := 0, 1+r.Intn(3); i < n; i++ {
+			f.list = append(f.list, r.Bytes(3, c05Alpha))
+		}
+		return f
+	case 14, 15:
+		return fltSpec{kind: k, sub: []fltSpec{genFltSome(r, depth+1)}}
+	case 16:
+		return fltSpec{kind: 16, arg: r.Bytes(4, c05Alpha), arg2: r.Bytes(2, c05Alpha), list: [][]byte{r.Bytes(3, c05Alpha)},
+			op: r.Intn(7), prefix: r.Bool(), b: r.Bool(), b2: r.Bool()}
+	case 17, 18, 19, 20:
+		return fltSpec{kind: k, arg: r.Bytes(4, c05Alpha), op: r.Intn(7), prefix: r.Bool()}
 	}
 	return fltSpec{}
 }
@@ -2052,6 +2332,14 @@ func runC05(tier string, seed uint64, out *Out) {
 	for _, l := range relocCases() {
 		out.Line("%s", l)
 	}
+	// table-administration requests: the schema on the wire is the one the caller described
+	nAdmin := 60
+	if tier != "quick" {
+		nAdmin = 600
+	}
+	for i := 0; i < nAdmin; i++ {
+		out.Line("%s", adminCase(NewRNG(seed, fmt.Sprintf("c05admin-%d", i))))
+	}
 	parallelLines(nMulti, 8, out, func(i int) string { return runMultiCase(seed, i) })
 	parallelLines(nStream, 8, out, func(i int) string { return runStreamCase(genStreamCase(seed, i, tier)) })
 	// the structure ties last: they can only report DIFF, and the runner keeps the first 200
@@ -2212,6 +2500,10 @@ func (s *opSpec) rValsOrd(cvs []*pb.MutationProto_ColumnValue) string {
 		inner, ok := values[f]
 		if ok && inner == nil {
 			out = append(out, hx([]byte(f))+":~")
+			continue
+		}
+		if ok && len(inner) == 0 { // an empty map stays an empty map (a delete writes its family cell for it)
+			out = append(out, hx([]byte(f))+":")
 			continue
 		}
 		var es []string
@@ -2419,6 +2711,135 @@ func runTieCase(seed uint64, i int) (line string) {
 			hx([]byte("org.apache.hadoop.hbase.filter.BinaryComparator")) + ":" + hx(ser)
 	}
 	return "c05 mutate " + fields + " " + rMutatePB(m)
+}
+
+// adminCase builds one CreateTable / DeleteTable / EnableTable / DisableTable request, marshals
+// it, decodes the bytes into a fresh message and compares with what was asked for.  Family
+// attributes the caller did not give must equal those of a request built with no attributes at all
+// (the library's defaults, whatever they are).
+func adminCase(r *RNG) string {
+	ctx := context.Background()
+	table := append([]byte("t"), r.Bytes(5, c05Alpha)...)
+	reround := func(m proto.Message, into proto.Message) bool {
+		b, err := proto.Marshal(m)
+		return err == nil && proto.Unmarshal(b, into) == nil
+	}
+	kind := []string{"create", "create", "create", "delete", "enable", "disable"}[r.Intn(6)]
+	switch kind {
+	case "delete", "enable", "disable":
+		var m proto.Message
+		var got *pb.TableName
+		switch kind {
+		case "delete":
+			d := &pb.DeleteTableRequest{}
+			m = hrpc.NewDeleteTable(ctx, table).ToProto()
+			if !reround(m, d) {
+				return "c05 admin " + kind + " undecodable"
+			}
+			got = d.GetTableName()
+		case "enable":
+			d := &pb.EnableTableRequest{}
+			m = hrpc.NewEnableTable(ctx, table).ToProto()
+			if !reround(m, d) {
+				return "c05 admin " + kind + " undecodable"
+			}
+			got = d.GetTableName()
+		default:
+			d := &pb.DisableTableRequest{}
+			m = hrpc.NewDisableTable(ctx, table).ToProto()
+			if !reround(m, d) {
+				return "c05 admin " + kind + " undecodable"
+			}
+			got = d.GetTableName()
+		}
+		if !bytes.Equal(got.GetQualifier(), table) {
+			return "c05 admin " + kind + " table-name-differs"
+		}
+		return "c05 admin " + kind + " ok"
+	}
+	keys := []string{"BLOOMFILTER", "REPLICATION_SCOPE", "COMPRESSION", "VERSIONS", "TTL", "MIN_VERSIONS",
+		"KEEP_DELETED_CELLS", "BLOCKSIZE", "IN_MEMORY", "BLOCKCACHE", "DATA_BLOCK_ENCODING"}
+	// the defaults, from a request with no attributes
+	ref := &pb.CreateTableRequest{}
+	if !reround(hrpc.NewCreateTable(ctx, table, map[string]map[string]string{"ref": nil}).ToProto(), ref) ||
+		len(ref.GetTableSchema().GetColumnFamilies()) != 1 {
+		return "c05 admin create reference-undecodable"
+	}
+	defaults := map[string]string{}
+	for _, a := range ref.GetTableSchema().GetColumnFamilies()[0].GetAttributes() {
+		defaults[string(a.GetFirst())] = string(a.GetSecond())
+	}
+	nf := 1 + r.Intn(4)
+	fams := map[string]map[string]string{}
+	for i := 0; i < nf; i++ {
+		name := fmt.Sprintf("f%d", i)
+		var attrs map[string]string
+		if r.Intn(4) != 0 {
+			attrs = map[string]string{}
+			for j, n := 0, r.Intn(5); j < n; j++ {
+				attrs[keys[r.Intn(len(keys))]] = fmt.Sprintf("v%d", r.Intn(1000))
+			}
+		}
+		fams[name] = attrs
+	}
+	var splits [][]byte
+	for j, n := 0, r.Intn(4); j < n; j++ {
+		splits = append(splits, []byte(fmt.Sprintf("s%02d", j*7+r.Intn(7))))
+	}
+	opts := []func(*hrpc.CreateTable){}
+	if len(splits) > 0 {
+		opts = append(opts, hrpc.SplitKeys(splits))
+	}
+	got := &pb.CreateTableRequest{}
+	if !reround(hrpc.NewCreateTable(ctx, table, fams, opts...).ToProto(), got) {
+		return "c05 admin create undecodable"
+	}
+	tag := fmt.Sprintf("create-%dfam", nf)
+	ts := got.GetTableSchema()
+	if !bytes.Equal(ts.GetTableName().GetQualifier(), table) {
+		return "c05 admin " + tag + " table-name-differs"
+	}
+	if len(got.GetSplitKeys()) != len(splits) {
+		return "c05 admin " + tag + " split-keys-differ"
+	}
+	for i := range splits {
+		if !bytes.Equal(got.GetSplitKeys()[i], splits[i]) {
+			return "c05 admin " + tag + " split-keys-differ"
+		}
+	}
+	if len(ts.GetColumnFamilies()) != nf {
+		return "c05 admin " + tag + " family-count-differs"
+	}
+	seen := map[string]bool{}
+	for _, f := range ts.GetColumnFamilies() {
+		name := string(f.GetName())
+		want, ok := fams[name]
+		if !ok || seen[name] {
+			return "c05 admin " + tag + " family-names-differ"
+		}
+		seen[name] = true
+		gotAttrs := map[string]string{}
+		for _, a := range f.GetAttributes() {
+			if _, dup := gotAttrs[string(a.GetFirst())]; dup {
+				return "c05 admin " + tag + " attribute-twice"
+			}
+			gotAttrs[string(a.GetFirst())] = string(a.GetSecond())
+		}
+		for k, v := range want {
+			if gotAttrs[k] != v {
+				return "c05 admin " + tag + " family-attribute-differs"
+			}
+		}
+		for k, v := range gotAttrs {
+			if _, given := want[k]; !given && defaults[k] != v {
+				return "c05 admin " + tag + " family-attribute-differs"
+			}
+		}
+		if len(gotAttrs) < len(defaults) {
+			return "c05 admin " + tag + " family-attribute-missing"
+		}
+	}
+	return "c05 admin " + tag + " ok"
 }
 
 func relocCases() []string {
